@@ -26,6 +26,8 @@ thread_local! {
     static PANIC_MSG: Cell<Option<String>> = const { Cell::new(None) };
     /// the thread is inside a handle drop that the harness performs by unwinding on purpose
     static DELIBERATE_UNWIND: Cell<bool> = const { Cell::new(false) };
+    /// the scheduler has started to unwind this thread for the tear-down of the execution
+    static TEARDOWN_UNWIND: Cell<bool> = const { Cell::new(false) };
 }
 
 /// Marks the calling thread as (not) being inside a drop-by-unwinding made on purpose.
@@ -33,9 +35,18 @@ pub fn set_deliberate_unwind(on: bool) {
     DELIBERATE_UNWIND.with(|d| d.set(on));
 }
 
-/// Is the thread unwinding from a panic that is not the harness's own deliberate one?
+/// Is the thread unwinding from a panic that is not the harness's own deliberate one?  Once the
+/// scheduler has started to unwind the thread for the tear-down of the execution the answer stays
+/// yes, also inside a deliberate drop-by-unwinding: destructors that run as clean-up of that
+/// unwinding must pass through the hooks, a second panic there would abort the process.
 pub fn genuinely_panicking() -> bool {
-    std::thread::panicking() && !DELIBERATE_UNWIND.with(|d| d.get())
+    std::thread::panicking() && (!DELIBERATE_UNWIND.with(|d| d.get()) || TEARDOWN_UNWIND.with(|d| d.get()))
+}
+
+/// Unwinds the calling thread because the execution is being torn down.
+fn unwind_for_teardown() -> ! {
+    TEARDOWN_UNWIND.with(|d| d.set(true));
+    panic::resume_unwind(Box::new(AbortToken))
 }
 
 /// Operations that run outside the scheduler's control (destructors during tear-down, the
@@ -74,6 +85,8 @@ pub enum Block {
     Join(usize),
     Gate(usize),
     Park,
+    /// suspended for good by the freeze sweep (C18): never woken
+    Frozen,
 }
 
 #[derive(Clone, Debug, PartialEq, Eq)]
@@ -163,6 +176,9 @@ pub struct ExecCfg {
     /// when the schedule bytes are used up start again at the first one (long churn runs: the
     /// preemptions do not stop after the first few hundred decisions)
     pub cyclic: bool,
+    /// (thread, k): the thread is suspended for good when it reaches its k-th scheduling point,
+    /// holding whatever it holds; the others run on (C18 freeze sweep)
+    pub freeze: Option<(usize, u64)>,
 }
 
 impl Default for ExecCfg {
@@ -176,6 +192,7 @@ impl Default for ExecCfg {
             quarantine: false,
             try_quiet_bound: 0,
             cyclic: false,
+            freeze: None,
         }
     }
 }
@@ -653,6 +670,8 @@ impl Sched {
         } else {
             panic::catch_unwind(AssertUnwindSafe(job))
         };
+        TEARDOWN_UNWIND.with(|d| d.set(false));
+        DELIBERATE_UNWIND.with(|d| d.set(false));
         let mut st = self.lock();
         if let Err(e) = r {
             if e.downcast_ref::<AbortToken>().is_none() {
@@ -711,7 +730,7 @@ impl Sched {
         st.set_abort(v);
         self.wake_all();
         drop(st);
-        panic::resume_unwind(Box::new(AbortToken));
+        unwind_for_teardown();
     }
 
     /// Common prologue of every point.  Returns None if the point must be skipped
@@ -745,7 +764,7 @@ impl Sched {
         }
         if st.abort.is_some() {
             drop(st);
-            panic::resume_unwind(Box::new(AbortToken));
+            unwind_for_teardown();
         }
         Some((me, st))
     }
@@ -771,7 +790,7 @@ impl Sched {
         }
         if st.abort.is_some() {
             drop(st);
-            panic::resume_unwind(Box::new(AbortToken));
+            unwind_for_teardown();
         }
         st
     }
@@ -795,6 +814,12 @@ impl Sched {
                     self.abort_here(st, Verdict::SoloBound(t, b));
                 }
                 return st;
+            }
+        }
+        if let Some((v, k)) = st.cfg.freeze {
+            if v == me && st.threads[me].steps == k {
+                // never returns normally: the thread is unwound when the execution is torn down
+                return self.block(st, me, Block::Frozen);
             }
         }
         if st.cfg.try_quiet_bound > 0 {
@@ -858,7 +883,7 @@ impl Sched {
                     }
                     if st.abort.is_some() {
                         drop(st);
-                        panic::resume_unwind(Box::new(AbortToken));
+                        unwind_for_teardown();
                     }
                     debug_assert!(st.threads[me].state == TState::Runnable);
                     return st;
